@@ -124,6 +124,19 @@ fn gen(rng: &mut Rng, _idx: u64, tier: Tier) -> Case {
         let line = gen::line_of(rng, &f, deco);
         lines.push((dt, line.clone(), tag.clone()));
         if rng.chance(0.08) { lines.push((0, line, format!("{}:duplicate", tag))); }
+        if rng.chance(0.05) {
+            // a time-stamped line whose frame was hit by noise; the stamp itself begins like a frame whose parity
+            // cannot be checked (DF0/4/5 in front of a short frame, DF16/20/21 in front of a long one) - whatever
+            // the line is read as, the reference decides (rejected: nothing may change)
+            let k = *rng.pick(&[Kind::Df11, Kind::Df11, Kind::Ident, Kind::AirPos, Kind::Df18]);
+            let mut f = gen::frame(rng, &mut acs[a], k, false);
+            let bit = rng.below(f.len() as u64 * 8) as usize;
+            f[bit / 8] ^= 0x80 >> (bit % 8);
+            let lead: u64 = if f.len() == 7 { *rng.pick(&[0x00u64, 0x02, 0x20, 0x25, 0x28, 0x2F]) } else { *rng.pick(&[0x80u64, 0x85, 0xA0, 0xA7, 0xA8, 0xAF]) };
+            let stamp = (lead << 40) | rng.bits(40);
+            let l = match rng.below(3) { 0 => format!("@{:012X}{};\n", stamp, modes::to_hex(&f)), 1 => format!("{:012X}{}\n", stamp, modes::to_hex(&f)), _ => format!("@{:012x}{};\r\n", stamp, modes::to_hex(&f).to_lowercase()) };
+            lines.push((0, l.into_bytes(), "stamped-damaged".into()));
+        }
     }
     // reordering: delay some lines past later ones
     for _ in 0..(n / 8) {
